@@ -43,15 +43,14 @@ def create_single_letter_matches(plain, cmdline):
         if s[-1].isalpha():
             s = s + r'\b'
         return r'(' + s + r')'
-    accept = r'|'.join(f(s) for s in accept if s)
+    accept = list(f(s) for s in accept if s)
 
     #   a list of all occurences of accepted patterns
+    #   - search for each pattern on its own: in an alternation 'a|b', a
+    #     pattern b starting like the shorter pattern a would never match
     #
-    if accept:
-        hits = list((m.start(0), m.end(0))
-                        for m in re.finditer(accept, plain))
-    else:
-        hits = []
+    hits = list((m.start(0), m.end(0))
+                    for pat in accept for m in re.finditer(pat, plain))
 
     def msg(m):
         return create_message(m, rule='PRIVATE::SINGLE_LETTER',
